@@ -162,6 +162,18 @@ func (w *mcKWallet) txTransfer(u *mcKUTXO, amounts []common.Integer, label strin
 	return w.sign(tx)
 }
 
+// txTransferTyped spends u into outputs to the wallet with explicit output type
+// bytes and explicit seed labels: equal (seed label, position) give equal
+// one-time output keys and masks.
+func (w *mcKWallet) txTransferTyped(u *mcKUTXO, amounts []common.Integer, types []uint8, seeds []string) *common.VersionedTransaction {
+	tx := common.NewTransactionV5(u.Asset)
+	tx.AddInput(u.Hash, u.Index)
+	for i, a := range amounts {
+		tx.AddOutputWithType(types[i], w.acct(), common.NewThresholdScript(1), a, fixc.Seed64("typed:"+seeds[i]))
+	}
+	return w.sign(tx)
+}
+
 // txSubmit is a withdrawal submit of amount out of u (change back to the wallet;
 // no change output when amount equals the whole output).
 func (w *mcKWallet) txSubmit(u *mcKUTXO, amount common.Integer, label string) *common.VersionedTransaction {
